@@ -469,6 +469,26 @@ theorem meta_arith (a b m : Nat) (ha : a < 1024) (hb : b < 1024) (hm : m < 256) 
     (a + b * 1024 + m * 1048576) / 1024 % 1024 = b ∧ (a + b * 1024 + m * 1048576) / 1048576 % 256 = m := by
   refine ⟨by omega, by omega, by omega, by omega⟩
 
+theorem containerFlagsV2_val (s u r g ca : Nat) (hs : s < 4) (hu : u < 4) (hr : r < 16) (hca : ca < 2) :
+    containerFlagsV2 s u r g ca = s + u * 2 ^ 4 + r * 2 ^ 8 + ca * 2 ^ 15 + g * 2 ^ 20 := by
+  unfold containerFlagsV2
+  have e1 : (s ||| u <<< AhabConsts.cFlagsUsedSrkIdOffset) = s + u * 2 ^ 4 := or_shl s u 4 (by omega)
+  have e2 : ((s + u * 2 ^ 4) ||| r <<< AhabConsts.cFlagsSrkRevokeMaskOffset) = s + u * 2 ^ 4 + r * 2 ^ 8 := or_shl _ r 8 (by omega)
+  have e3 : ((s + u * 2 ^ 4 + r * 2 ^ 8) ||| ca <<< AhabConsts.cFlagsCheckAllSignaturesOffset) = s + u * 2 ^ 4 + r * 2 ^ 8 + ca * 2 ^ 15 :=
+    or_shl _ ca 15 (by omega)
+  have e4 : ((s + u * 2 ^ 4 + r * 2 ^ 8 + ca * 2 ^ 15) ||| g <<< AhabConsts.cFlagsGdetEnableOffset) =
+      s + u * 2 ^ 4 + r * 2 ^ 8 + ca * 2 ^ 15 + g * 2 ^ 20 := or_shl _ g 20 (by omega)
+  rw [e1, e2, e3, e4]
+
+theorem cflags_arith (s u r g ca : Nat) (hs : s < 4) (hu : u < 4) (hr : r < 16) (hca : ca < 2) (hg : g < 4) :
+    s + u * 16 + r * 256 + ca * 32768 + g * 1048576 < 4294967296 ∧
+    (s + u * 16 + r * 256 + ca * 32768 + g * 1048576) / 1 % 4 = s ∧
+    (s + u * 16 + r * 256 + ca * 32768 + g * 1048576) / 16 % 4 = u ∧
+    (s + u * 16 + r * 256 + ca * 32768 + g * 1048576) / 256 % 16 = r ∧
+    (s + u * 16 + r * 256 + ca * 32768 + g * 1048576) / 32768 % 2 = ca ∧
+    (s + u * 16 + r * 256 + ca * 32768 + g * 1048576) / 1048576 % 4 = g := by
+  refine ⟨by omega, by omega, by omega, by omega, by omega, by omega⟩
+
 /-! ### signature block layout -/
 
 theorem al8_spec (n : Nat) : n ≤ al8 n ∧ al8 n % 8 = 0 ∧ al8 n < n + 8 := by
